@@ -43,6 +43,7 @@ func init() {
 	register("C19", "O-fresh S-arg S-nobr S-order S-fan", nil, rule{name: "O-fresh", run: ruleOFreshState}, rule{name: "S-arg", run: ruleSDebugArg}, rule{name: "S-nobr", run: ruleSNoBranch}, rule{name: "S-order", run: ruleSOrder}, rule{name: "S-fan", run: ruleSFan})
 	register("C12", "S-fund G-map O-pure", nil, rule{name: "S-fund", run: ruleSFund}, rule{name: "G-map", run: ruleGMapFromUTXOs}, rule{name: "G-lin", run: ruleGDeficit}, rule{name: "G-sum", run: ruleGSum})
 	register("C11", "G-size G-fee G-pred P-est T-tmpl G-sum", nil, rule{name: "G-size", run: ruleGSize}, rule{name: "G-fee", run: ruleGFee}, rule{name: "G-pred", run: ruleGPred}, rule{name: "P-est", run: rulePEst}, rule{name: "G-sum", run: ruleGSum}, rule{name: "T-tmpl", run: ruleTTmplScripts})
+	register("C10", "G-chg S-chg O-pure G-sum G-size T-vi", nil, rule{name: "G-chg", run: ruleGChg}, rule{name: "S-chg", run: ruleSChgWrappers}, rule{name: "G-sum", run: ruleGSum}, rule{name: "G-size", run: ruleGSize}, rule{name: "P-est", run: rulePEst}, rule{name: "T-vi", run: ruleTVi})
 	register("C02", "W-sig", nil, rule{name: "W-sig", run: ruleWSig}, rule{name: "S-err", run: func(c *Ctx) { ruleSErrPreimage(c, "CalcInputPreimage") }}, rule{name: "O-pure", run: ruleOPureSighash})
 	register("C03", "W-leg", nil, rule{name: "W-leg", run: ruleWLeg}, rule{name: "G-eff", run: ruleGEffLegacy}, rule{name: "S-err", run: func(c *Ctx) { ruleSErrPreimage(c, "CalcInputPreimageLegacy") }}, rule{name: "O-pure", run: ruleOPureSighash})
 }
